@@ -32,7 +32,7 @@ func (c17) Runs(tier string) int {
 func (c17) Describe() core.Description {
 	return core.Description{
 		Level:  "exploration",
-		Rule:   "per run: drawn ring (LogN 4-8, 1-4 moduli of unequal size), drawn distribution (uniform / Gaussian with sigma 0.5..2^70 and bound/sigma 0.5..8 incl. the big-number path / ternary with P in {0.5, 2/3, drawn} or H in 1..N), Montgomery flag, 32-byte key; history of 4-50 calls drawn from {Read, ReadNew, ReadAndAdd on the base sampler or on any level view, create view AtLevel(l), ringqp sampler calls}, executed on the system sampler and on a twin with the same key; then reset-and-replay, different-key divergence, compressed-key expansion twin. Non-trivial = history with >= 2 level views interleaved or >= 1 ReadAndAdd; distinct = distinct choice traces",
+		Rule:   "per run: drawn ring (LogN 4-8, 1-4 moduli of unequal size), drawn distribution (uniform / Gaussian with sigma 0.5..2^70 and bound/sigma 0.5..8 incl. the big-number path / ternary with P in {0.5, 2/3, drawn} or H in 1..N), Montgomery flag, 32-byte key (raw generator: keys of 1-64 bytes); history of 4-50 calls drawn from {Read, ReadNew, ReadAndAdd on the base sampler or on any level view, create view AtLevel(l), ringqp sampler calls}, executed on the system sampler and on a twin with the same key; then reset-and-replay, different-key divergence, compressed-key expansion twin. Non-trivial = history with >= 2 level views interleaved or >= 1 ReadAndAdd; distinct = distinct choice traces",
 		Real:   []string{"ring.UniformSampler/GaussianSampler/TernarySampler and their AtLevel views", "ringqp.UniformSampler (+AtLevel, WithPRNG)", "sampling.KeyedPRNG (BLAKE2b XOF) incl. Reset", "rlwe.EvaluationKey.Expand / compressed key generation", "ring.Ring.PolyToBigintCentered, IMForm (substrate for the oracles)"},
 		Stub:   []string{"entropy source for keys (deterministic crypto/rand.Reader)", "recording wrapper around the keyed source (counts bytes and calls)"},
 		Assume: []string{"no fault is injected: a sampling.PRNG that short-reads or fails is outside the documented contract", "statistical bands are at least 8 standard errors wide and only evaluated on >= 2000 coefficients"},
@@ -333,8 +333,19 @@ func (p c17) Run(ctx *core.RunCtx) {
 	}
 	// raw stream replay
 	{
-		kbuf := append([]byte{}, key...)
-		k1, _ := sampling.NewKeyedPRNG(kbuf)
+		// a key of any accepted length (the generator's own NewPRNG draws 64 bytes; callers append identifiers to
+		// a common seed): the run's key, cut or extended
+		rawKey := make([]byte, 1+ch.Draw("raw-key-len", 64))
+		core.NewXoshiro(core.HashString(string(key))).Fill(rawKey)
+		copy(rawKey, key)
+		if len(rawKey) > 32 {
+			ctx.Count("probe.key-longer-than-32-bytes", 1)
+		}
+		kbuf := append([]byte{}, rawKey...)
+		k1, err := sampling.NewKeyedPRNG(kbuf)
+		if err != nil {
+			ctx.Harness("NewKeyedPRNG with a key of %d bytes: %v", len(kbuf), err)
+		}
 		b1 := make([]byte, 1+ch.Draw("raw-len", 3000))
 		k1.Read(b1)
 		if ch.Bool("raw-wipe-caller-key") {
@@ -364,16 +375,19 @@ func (p c17) Run(ctx *core.RunCtx) {
 			return
 		}
 		// distinct key: unrelated stream
-		key2 := append([]byte{}, key...)
-		key2[ch.Draw("key-flip-byte", 32)] ^= 1 << uint(ch.Draw("key-flip-bit", 8))
-		k2, _ := sampling.NewKeyedPRNG(key2)
+		rawKey2 := append([]byte{}, rawKey...)
+		flipAt := ch.Draw("raw-key-flip-byte", len(rawKey2))
+		rawKey2[flipAt] ^= 1 << uint(ch.Draw("key-flip-bit", 8))
+		k2, _ := sampling.NewKeyedPRNG(rawKey2)
 		b3 := make([]byte, len(b1))
 		k2.Read(b3)
 		ctx.Count("oracle.distinct-key", 1)
 		if len(b1) >= 16 && bytes.Equal(b1[:16], b3[:16]) {
-			ctx.Fail("distinct-key", "KeyedPRNG|same-stream", "two keys differing in one bit give the same first 16 bytes")
+			ctx.Fail("distinct-key", "KeyedPRNG|same-stream", "two keys of %d bytes differing in one bit of byte %d give the same first 16 bytes", len(rawKey), flipAt)
 			return
 		}
+		key2 := append([]byte{}, key...)
+		key2[ch.Draw("key-flip-byte", 32)] ^= 1 << uint(ch.Draw("key-flip-bit-2", 8))
 		if entropyOK {
 			C := newC17Side(ctx, key2, r, d)
 			pa := newC17Side(ctx, key, r, d).views[0].ReadNew()
